@@ -31,7 +31,7 @@ def run(module, cfg, workdir, env=None, workers=8, simulate=None, depth=None, se
     cfgname = os.path.splitext(os.path.basename(cfg))[0]
     meta = os.path.join(workdir, "meta_%s_%d" % (cfgname, os.getpid()))
     shutil.rmtree(meta, ignore_errors=True)
-    jopts = ["-XX:+UseParallelGC", "-Xmx" + xmx]
+    jopts = ["-XX:+UseParallelGC", "-Xmx" + xmx, "-Xss32m"]      # worker threads evaluate deep recursive operators (byte images of ~1 kB)
     if deque:
         jopts.append("-Dtlc2.tool.queue.IStateQueue=StateDeque")
     cmd = ["timeout", str(timeout), "java"] + jopts + ["-cp", JAR, "tlc2.TLC",
